@@ -33,6 +33,7 @@ RESP_NO_PUB = part('resp_no_pub', False)   # channel responder: the handler retu
 REQ_COMPLETE = part('req_complete', False) # channel responder: the REQUEST_CHANNEL carries COMPLETE (requester has no publisher)
 EARLY_FIRST = part('early_first', False)   # the first event happens in the same loop slice as the opening of the interaction (its frames still queued)
 NEIGHBOUR_RAISES = part('neighbour_raises', False)   # an earlier-registered peer stream whose publisher's cancel() raises when the connection ends
+EMPTY_NEXT = part('empty_next', False)     # inbound PAYLOAD frames with NEXT carry no data and no metadata (legal: e.g. the last frame of a generator source)
 PROBE_REUSE = part('probe_reuse', False)   # C10: after termination a new request on the same id must be accepted
 
 # event kinds
@@ -211,8 +212,8 @@ def run_history(ev, fa, fb, fc, n):
                         nxt, comp = concb(a), concb(b)
                     if not nxt and not comp and not fol and not peer_midfrag:
                         continue
-                fr = to_payload_frame(SID, Payload(b'd' if (nxt or fol or peer_midfrag) else b''), complete=comp,
-                                      is_next=nxt or fol or peer_midfrag)
+                fr = to_payload_frame(SID, Payload(b'd' if (nxt or fol or peer_midfrag) and not (EMPTY_NEXT and not fol and not peer_midfrag) else b''),
+                                      complete=comp, is_next=nxt or fol or peer_midfrag)
                 fr.flags_follows = fol
                 t.feed_wire(fr)
                 peer_midfrag = fol
